@@ -486,7 +486,6 @@ def loc_key(k, labels, reorder=False):
 
 # ---------------------------------------------------------------------------------------------- assign
 F_BOOLSORT = 'C08-assign-iloc-boolean-array-column-key'
-F_DISJOINT = 'C08-assign-frame-value-one-axis-disjoint'
 
 ELEMS = [-5, 2.5, 'zz', None, True, 0]
 
@@ -699,8 +698,7 @@ def _labelled_case(ctx, f, oflit, pname, m, nrows, layout, vkind, rk, ck, rps, c
     after = snapshot(f)
     tags = assign_tags(form, ck, rk, m, form == 'iloc' and ck.kind == 'mask')
     tags['value'] = vkind
-    if vkind in ('frame_norows', 'frame_nocols') and 'finding' not in tags:
-        tags['finding'] = F_DISJOINT
+    # Frame values disjoint from the target on ONE axis were mis-assigned until fix 658b4ce (resize_blocks): regression cases
     ctx.count(f'assign:value={vkind}', f'assign:form={form}', 'outcome:' + ('ok' if err is None else lit.err_class(err)))
     sterm = f'S_frame_assign_ok {oflit} {rk.ocoq()} {ck.ocoq()} {aval} {fill[1]} {oframe_lit(out)}' if err is None else 'false'
     yield Case(f'api:frame.assign.{form}(labelled)',
